@@ -1,6 +1,8 @@
-"""GenNameServer (C14): NAMESERVER_NAME, and for every SqlStorage method the ordered list of SQL
-statements (classified by their literal text) and commit calls it contains.  Fail closed: an SQL text
-that is not in the table below is not silently accepted."""
+"""GenNameServer (C14): NAMESERVER_NAME, and for every SqlStorage method the ordered list (first occurrences) of
+SQL statements (classified by their literal text) and commit calls it executes, following calls into private
+helpers of the module.  Fail closed for the WRITING methods (__setitem__, __delitem__, remove_items): an SQL text
+that is not in the table is not accepted.  In the READING methods an unknown SELECT is recorded as select_other
+(what they answer is compared behaviourally by the harness; the proofs only need that they do not write)."""
 import ast, re
 from tools.gen.gen import generator, parse, find_class, find_func, module_assign, need, GenError, HEADER, clist, cN, ctext, cbool, ast_sha
 
@@ -36,21 +38,70 @@ def norm_sql(s):
     return re.sub(r"\s+", " ", s).strip().rstrip(";")
 
 
-def method_statements(func):
-    """SQL string constants and .commit() calls in source order"""
+SELECT_OTHER = 20          # a SELECT whose text is not in the table (only accepted in reading methods)
+READ_METHODS = ["__getitem__", "__len__", "__contains__", "__iter__", "optimized_prefix_list", "optimized_metadata_search", "everything"]
+WRITE_METHODS = ["__setitem__", "__delitem__", "remove_items"]
+SQL_START = re.compile(r"(?i)^(select\b.*\bfrom\b|select\s+exists\b|insert\s+(or\s+\w+\s+)?into\b|delete\s+from\b|update\s+\w+\s+set\b|replace\s+into\b|pragma\s+\w|drop\s+table\b|alter\s+table\b|create\s+(table|index)\b|vacuum\s*$)")
+
+
+def _helper_target(call, helpers):
+    """the private helper a call goes to: self._x(...), cls._x(...), SqlStorage._x(...), _x(...)"""
+    f = call.func
+    if isinstance(f, ast.Attribute) and isinstance(f.value, ast.Name) and f.value.id in ("self", "cls", "SqlStorage") and f.attr in helpers:
+        return f.attr
+    if isinstance(f, ast.Name) and f.id in helpers:
+        return f.id
+    return None
+
+
+def method_statements(func, helpers, consts, tolerant, depth=0, stack=()):
+    """SQL statements and .commit() calls in source order; calls of private helper methods/functions of the same
+    module are followed (their statements appear at the position of the call); a class- or module-level name bound
+    to an SQL string counts where it is used.  tolerant: an unknown SELECT text becomes SELECT_OTHER."""
     found = []
+
+    def sql(text, pos):
+        s = norm_sql(text)
+        if not SQL_START.match(s):
+            return
+        if s in KINDS:
+            found.append((pos, KINDS[s][0], KINDS[s][1]))
+        elif tolerant and re.match(r"(?i)^select\b", s) and not re.search(r"(?i)\b(insert|delete|update|drop|alter|create|replace)\b", s):
+            found.append((pos, SELECT_OTHER, "select_other"))
+        else:
+            raise GenError("%s: unrecognised SQL statement %r" % (func.name, s))
+    doc = None
+    if func.body and isinstance(func.body[0], ast.Expr) and isinstance(func.body[0].value, ast.Constant) and isinstance(func.body[0].value.value, str):
+        doc = func.body[0].value
     for node in ast.walk(func):
+        if not hasattr(node, "lineno") or node is doc:
+            continue
+        pos = (node.lineno, node.col_offset)
         if isinstance(node, ast.Constant) and isinstance(node.value, str):
-            s = norm_sql(node.value)
-            if re.match(r"(?i)^(select|insert|delete|update|pragma|drop|alter|create|replace|vacuum)\b", s):
-                need(s in KINDS, "%s: unrecognised SQL statement %r" % (func.name, s))
-                found.append((node.lineno, node.col_offset, KINDS[s][0], KINDS[s][1]))
-        if isinstance(node, ast.Call) and isinstance(node.func, ast.Attribute) and node.func.attr == "commit":
-            found.append((node.lineno, node.col_offset, COMMIT, "commit"))
-        if isinstance(node, ast.Call) and isinstance(node.func, ast.Attribute) and node.func.attr in ("rollback", "executescript", "executemany"):
-            raise GenError("%s: call of %s is outside the modelled statement vocabulary" % (func.name, node.func.attr))
-    found.sort()
-    return [(c, k) for _, _, c, k in found]
+            sql(node.value, pos)
+        elif isinstance(node, ast.Attribute) and isinstance(node.value, ast.Name) and node.value.id in ("self", "cls", "SqlStorage") and node.attr in consts:
+            sql(consts[node.attr], pos)
+        elif isinstance(node, ast.Name) and node.id in consts and isinstance(node.ctx, ast.Load):
+            sql(consts[node.id], pos)
+        if isinstance(node, ast.Call):
+            if isinstance(node.func, ast.Attribute) and node.func.attr == "commit":
+                found.append((pos, COMMIT, "commit"))
+            if isinstance(node.func, ast.Attribute) and node.func.attr in ("rollback", "executescript", "executemany"):
+                raise GenError("%s: call of %s is outside the modelled statement vocabulary" % (func.name, node.func.attr))
+            h = _helper_target(node, helpers)
+            if h is not None and h not in stack and depth < 3:
+                for k, (c, kind) in enumerate(method_statements(helpers[h], helpers, consts, tolerant, depth + 1, stack + (h,))):
+                    found.append((pos + (k,), c, kind))
+    found.sort(key=lambda t: t[0])
+    return [(c, k) for _, c, k in found]
+
+
+def _first_occurrences(seq):
+    out = []
+    for c, k in seq:
+        if all(c != c2 for c2, _ in out):
+            out.append((c, k))
+    return out
 
 
 @generator("GenNameServer", "Pyro5/nameserver.py", "Pyro5/core.py")
@@ -59,35 +110,51 @@ def gen_nameserver(tree):
     nsname = module_assign(core, "NAMESERVER_NAME")
     need(isinstance(nsname, ast.Constant) and isinstance(nsname.value, str) and nsname.value, "NAMESERVER_NAME is not a non-empty string literal")
     mod, _ = parse(tree, "Pyro5/nameserver.py")
-    find_class(mod, "SqlStorage")
+    cls = find_class(mod, "SqlStorage")
+    # private helpers (methods of SqlStorage and module-level functions) and names bound to SQL text
+    helpers, consts = {}, {}
+    for n in list(cls.body) + list(mod.body):
+        if isinstance(n, (ast.FunctionDef, ast.AsyncFunctionDef)) and n.name.startswith("_") and not n.name.startswith("__"):
+            helpers.setdefault(n.name, n)
+        if isinstance(n, ast.Assign) and len(n.targets) == 1 and isinstance(n.targets[0], ast.Name) \
+                and isinstance(n.value, ast.Constant) and isinstance(n.value.value, str) and SQL_START.match(norm_sql(n.value.value)):
+            consts[n.targets[0].id] = n.value.value
     stm = {}
     for m in METHODS:
         f = find_func(mod, m, "SqlStorage")
-        stm[m] = method_statements(f)
+        stm[m] = _first_occurrences(method_statements(f, helpers, consts, tolerant=(m in READ_METHODS)))
         # every storage method must turn sqlite errors into NamingError (one try/except DatabaseError around one `with connect`)
         tries = [n for n in ast.walk(f) if isinstance(n, ast.Try)]
-        need(len(tries) == 1, "SqlStorage.%s: expected exactly one try statement" % m)
-        withs = [n for n in ast.walk(f) if isinstance(n, ast.With)]
-        need(len(withs) == 1, "SqlStorage.%s: expected exactly one `with sqlite3.connect(...)` block (one transaction)" % m)
+        need(len(tries) >= 1, "SqlStorage.%s: no try statement (sqlite errors must become NamingError)" % m)
+
+        def opens_connection(w):
+            for it in w.items:
+                e = it.context_expr
+                if isinstance(e, ast.Call):
+                    fn = e.func.attr if isinstance(e.func, ast.Attribute) else (e.func.id if isinstance(e.func, ast.Name) else "")
+                    if "connect" in fn.lower():
+                        return True
+            return False
+        withs = [n for n in ast.walk(f) if isinstance(n, ast.With) and opens_connection(n)]
+        need(len(withs) == 1, "SqlStorage.%s: expected exactly one `with <connection>` block (one transaction)" % m)
     # syntactic facts about the three known deviations
+    # (informational: the harness probes the behaviour; a form that is not recognised is reported as unknown)
     prefix_codes = {c for c, _ in stm["optimized_prefix_list"] if c in (13, 14)}
-    need(prefix_codes in ({13}, {14}), "optimized_prefix_list mixes prefix query forms")
-    prefix_exact = prefix_codes == {14}
+    prefix_exact = True if prefix_codes == {14} else (False if 13 in prefix_codes else None)
     oms = find_func(mod, "optimized_metadata_search", "SqlStorage")
     dedup = any(isinstance(n, ast.Call) and isinstance(n.func, ast.Name) and n.func.id in ("set", "frozenset")
                 and len(n.args) == 1 and isinstance(n.args[0], ast.Name) and n.args[0].id == "metadata_all"
                 for n in ast.walk(oms))
     rem = find_func(mod, "remove", "NameServer")
     tests = [n.test for n in ast.walk(rem) if isinstance(n, ast.If) and isinstance(n.test, ast.BoolOp) and isinstance(n.test.op, ast.And)]
-    need(len(tests) == 1 and len(tests[0].values) == 3, "NameServer.remove: the by-name test `a and b and c` not found exactly once")
-    first = tests[0].values[0]
-    if isinstance(first, ast.Name) and first.id == "name":
-        name_not_none = False
-    elif isinstance(first, ast.Compare) and isinstance(first.left, ast.Name) and first.left.id == "name" and len(first.ops) == 1 \
-            and isinstance(first.ops[0], ast.IsNot) and isinstance(first.comparators[0], ast.Constant) and first.comparators[0].value is None:
-        name_not_none = True
-    else:
-        raise GenError("NameServer.remove: unrecognised first conjunct of the by-name test")
+    name_not_none = None
+    if len(tests) == 1 and len(tests[0].values) == 3:
+        first = tests[0].values[0]
+        if isinstance(first, ast.Name) and first.id == "name":
+            name_not_none = False
+        elif isinstance(first, ast.Compare) and isinstance(first.left, ast.Name) and first.left.id == "name" and len(first.ops) == 1 \
+                and isinstance(first.ops[0], ast.IsNot) and isinstance(first.comparators[0], ast.Constant) and first.comparators[0].value is None:
+            name_not_none = True
     out = HEADER % "Pyro5/nameserver.py, Pyro5/core.py"
     out += "Definition ns_name : list N := %s.   (* %s *)\n\n" % (ctext(nsname.value), nsname.value)
     out += "(* SQL statements and commit calls per SqlStorage method, in source order.\n"
@@ -97,10 +164,12 @@ def gen_nameserver(tree):
     for m in METHODS:
         out += "Definition sql_%s : list N := %s.   (* %s *)\n" % (m.strip("_"), clist([cN(c) for c, _ in stm[m]]), " ".join(k for _, k in stm[m]))
     out += "Definition sql_methods : list (list N) := %s.\n\n" % clist(["sql_" + m.strip("_") for m in METHODS])
-    out += "(* syntactic facts about the three deviations of DESIGN section 7 row 5 *)\n"
-    out += "Definition src_prefix_exact : bool := %s.\n" % cbool(prefix_exact)
-    out += "Definition src_meta_all_dedup : bool := %s.\n" % cbool(dedup)
-    out += "Definition src_remove_name_is_not_none : bool := %s.\n" % cbool(name_not_none)
+    def cob(b):
+        return "None" if b is None else "(Some %s)" % cbool(b)
+    out += "(* syntactic facts about the three deviations of DESIGN section 7 row 5 (informational; None = form not recognised) *)\n"
+    out += "Definition src_prefix_exact : option bool := %s.\n" % cob(prefix_exact)
+    out += "Definition src_meta_all_dedup : option bool := %s.\n" % cob(dedup)
+    out += "Definition src_remove_name_is_not_none : option bool := %s.\n" % cob(name_not_none)
     return out, {"ns_name": nsname.value, "statements": {m: [k for _, k in stm[m]] for m in METHODS},
                  "prefix_exact": prefix_exact, "meta_all_dedup": dedup, "remove_name_is_not_none": name_not_none,
                  "ast_sha": {m: ast_sha(find_func(mod, m, "SqlStorage")) for m in METHODS}}
